@@ -785,7 +785,7 @@ def iterate(world, ex, v):
         return full[v.lo::v.step]
     if isinstance(v, QVars):
         n = concretize_int(world, ex, S.nqv(v.n), 1, max(2, ex.max_arity - 1), "qvars-bound")
-        items = [S.qv(v.n, S.K(i)) for i in range(n)]
+        items = [world.touch(ex, S.qv(v.n, S.K(i))) for i in range(n)]
         s = z3.EmptySet(Node)
         for x in items:
             s = z3.SetAdd(s, x)
